@@ -291,11 +291,187 @@ class Interp:
         if hasattr(target, "module") and target.module.rel == F.CLI and target.cls is not None \
                 and target.cls.name == "Service" and depth < 5 and target.qual not in chain and target.key != fi.key:
             sub_resync = resync or target.name == RESYNC_FN
+            if target.name == RESYNC_FN and getattr(self, "resync_model", None) is not None:
+                out = set()
+                for (p, s0, w) in st:
+                    for k in (0, 1, 2):
+                        v = self.resync_model.run(k, s0)
+                        out.add((v, v, w))
+                if rec is not None:
+                    rec.append((fi, node, ("flag_store", call, call, True, False), st, chain))
+                return frozenset(out)
             ex = self.run(target, st, sub_resync, chain + (target.qual,), depth + 1)
             if ex:
                 return ex
             return st
         return st
+
+
+class ResyncModel:
+    """Constant-propagating evaluation of the re-synchronisation function for a concrete server state k
+    and concrete current flags s.  Returns the resulting flags, or None when a construct is not understood."""
+
+    class _Unknown(Exception):
+        pass
+
+    def __init__(self, repo, fm):
+        self.repo, self.fm = repo, fm
+        self.fi = repo.func(F.CLI, "Service." + RESYNC_FN)
+        self.param = self.fi.params[1] if len(self.fi.params) > 1 else None
+
+    def run(self, k, s):
+        env = {self.param: k}
+        self.cur = s
+        try:
+            self._block(self.fi.node.body, env)
+        except ResyncModel._Unknown:
+            return None
+        except _Return:
+            pass
+        return self.cur & self.fm.width
+
+    def _block(self, stmts, env):
+        for st in stmts:
+            if isinstance(st, ast.Expr) and isinstance(st.value, ast.Constant):
+                continue
+            if isinstance(st, ast.Pass):
+                continue
+            if isinstance(st, ast.Return):
+                raise _Return()
+            if isinstance(st, ast.Assign) and len(st.targets) == 1 and isinstance(st.targets[0], ast.Name):
+                env[st.targets[0].id] = self._ev(st.value, env)
+                continue
+            if isinstance(st, ast.Assign) and len(st.targets) == 1 and isinstance(st.targets[0], ast.Subscript) and \
+                    dotted(st.targets[0].value) == "self.service_meta":
+                self.cur = self._ev(st.value, env)
+                continue
+            if isinstance(st, ast.Expr) and isinstance(st.value, ast.Call):
+                self._ev(st.value, env)
+                continue
+            if isinstance(st, ast.If):
+                if self._ev(st.test, env):
+                    self._block(st.body, env)
+                else:
+                    self._block(st.orelse, env)
+                continue
+            raise ResyncModel._Unknown()
+
+    def _ev(self, e, env):
+        U = ResyncModel._Unknown
+        if isinstance(e, ast.Constant):
+            return e.value
+        if isinstance(e, ast.Name):
+            if e.id in env:
+                return env[e.id]
+            raise U()
+        if F.is_state_read(self.repo, None, e):
+            return self.cur
+        if isinstance(e, ast.Call):
+            d = dotted(e.func) or ""
+            parts = d.split(".")
+            if d == "self.set_current_service_state" and len(e.args) == 1:
+                self.cur = self._ev(e.args[0], env)
+                return None
+            if len(parts) >= 2 and parts[-2] == "ClientServiceState" and len(e.args) >= 1:
+                a0 = self._ev(e.args[0], env)
+                if parts[-1].startswith("is_") and parts[-1][3:] in self.fm.getter_bit and self.fm.getter_bit[parts[-1][3:]]:
+                    return bool(a0 & self.fm.getter_bit[parts[-1][3:]])
+                if parts[-1].startswith("set_") and parts[-1][4:] in self.fm.setter_bit and len(e.args) == 2:
+                    sb, cb = self.fm.setter_bit[parts[-1][4:]]
+                    if not sb or not cb:
+                        raise U()
+                    return (a0 | sb) if self._ev(e.args[1], env) else (a0 & ~cb)
+            if d == "bool" and len(e.args) == 1:
+                return bool(self._ev(e.args[0], env))
+            raise U()
+        if isinstance(e, ast.Compare):
+            left = self._ev(e.left, env)
+            for op, c in zip(e.ops, e.comparators):
+                right = self._ev(c, env)
+                t = type(op)
+                if t in (ast.Eq, ast.Is):
+                    ok = left == right
+                elif t in (ast.NotEq, ast.IsNot):
+                    ok = left != right
+                elif t is ast.Lt:
+                    ok = left < right
+                elif t is ast.LtE:
+                    ok = left <= right
+                elif t is ast.Gt:
+                    ok = left > right
+                elif t is ast.GtE:
+                    ok = left >= right
+                elif t is ast.In:
+                    ok = left in right
+                elif t is ast.NotIn:
+                    ok = left not in right
+                else:
+                    raise U()
+                if not ok:
+                    return False
+                left = right
+            return True
+        if isinstance(e, ast.BoolOp):
+            vals = [self._ev(v, env) for v in e.values]
+            return all(vals) if isinstance(e.op, ast.And) else any(vals)
+        if isinstance(e, ast.UnaryOp):
+            v = self._ev(e.operand, env)
+            if isinstance(e.op, ast.Not):
+                return not v
+            if isinstance(e.op, ast.Invert):
+                return ~v
+            raise U()
+        if isinstance(e, ast.BinOp):
+            l, r = self._ev(e.left, env), self._ev(e.right, env)
+            if isinstance(e.op, ast.BitOr):
+                return l | r
+            if isinstance(e.op, ast.BitAnd):
+                return l & r
+            raise U()
+        if isinstance(e, ast.IfExp):
+            return self._ev(e.body if self._ev(e.test, env) else e.orelse, env)
+        if isinstance(e, (ast.Tuple, ast.List, ast.Set)):
+            return [self._ev(x, env) for x in e.elts]
+        try:
+            return self.repo.const_value(self.fm.module, e)
+        except Exception:
+            raise U()
+
+
+class _Return(Exception):
+    pass
+
+
+def _check_resync(repo, rule, fm, it):
+    """After re-synchronisation with server state k the upload flags are exactly (k >= 1, k == 2), other flags unchanged."""
+    rm = ResyncModel(repo, fm)
+    cu, du = fm.flag_bit[CU], fm.flag_bit[DU]
+    states = F.service_states(repo, F.CLI)
+    ks = sorted(set(states.values()))
+    rule.require(ks == [0, 1, 2], rm.fi, "client SERVICE_STATE constants", "the client's SERVICE_STATE constants are %s, expected 0,1,2" % ks)
+    srv = sorted(set(F.service_states(repo, F.SRV).values()))
+    rule.require(srv == ks, rm.fi, "SERVICE_STATE agreement", "client and server disagree on the SERVICE_STATE constants: %s vs %s" % (ks, srv))
+    understood = True
+    for k in (0, 1, 2):
+        for s in it.universe:
+            out = rm.run(k, s)
+            if out is None:
+                understood = False
+                break
+            want = (s & ~(cu | du)) | (cu if k >= 1 else 0) | (du if k == 2 else 0)
+            if out != want:
+                rule.fail_fn(rm.fi, rm.fi.node, "resync result for server state %d" % k,
+                             "re-synchronising with server state %d from flags [%s] yields [%s], expected [%s] "
+                             "(config_uploaded = state >= 1, db_uploaded = state == 2, other flags untouched)" % (
+                                 k, _names(fm, s), _names(fm, out), _names(fm, want)))
+                return rm, True
+        if not understood:
+            break
+    if understood:
+        rule.ok({"function": rm.fi.qual, "evaluated": "3 server states x %d flag vectors" % len(it.universe)})
+    else:
+        rule.note("re-synchronisation function uses constructs the constant evaluator does not model; falling back to the abstract interpreter")
+    return rm, understood
 
 
 def _pred(fm, req_true, req_false):
@@ -324,7 +500,10 @@ def check(repo):
     r4 = Rule("R11.4", "refusal paths are pure")
     r6 = Rule("R11.6", "every flag store is followed by persistence; loader reads what was persisted")
     rules += [r1, r4, r6]
-    universe_pairs = None
+    it0 = Interp(repo, fm, scanner)
+    r8 = Rule("R11.8", "server re-synchronisation restores exactly the two upload flags")
+    rules.append(r8)
+    resync_model, understood = _check_resync(repo, r8, fm, it0)
     expected_send = {"upload-config": mt.get("CONFIG"), "upload-db": mt.get("UPLOAD_DB"), "search": mt.get("TOKEN")}
     expected_writes = {"create-config": {"create_sid_folder", "write_service_config", "write_service_meta"},
                        "create-key": {"write_key", "write_service_meta"},
@@ -335,6 +514,7 @@ def check(repo):
         if fi is None:
             raise AnalysisError("client handler vanished: %s" % hname)
         it = Interp(repo, fm, scanner)
+        it.resync_model = resync_model if understood else None
         entry = frozenset((v, v, w) for v in it.universe for w in (0, 1))
         it.run(fi, entry)
         pred = _pred(fm, req_t, req_f)
@@ -427,6 +607,10 @@ def check(repo):
     r3 = Rule("R11.3", "key write-once")
     rules.append(r3)
     _check_key_write_once(repo, r3, fm)
+
+    r9 = Rule("R11.9", "creating a service never overwrites an existing service directory")
+    rules.append(r9)
+    _check_create_refuses_existing(repo, r9)
 
     r7 = Rule("R11.7", "service alias registered once")
     rules.append(r7)
@@ -785,6 +969,38 @@ def _check_key_write_once(repo, r3, fm):
     if dele is not None:
         r3.require(_path_constants(dele) == {"edb"}, dele, "delete_encrypted_database target",
                    "delete_encrypted_database removes %s, expected only 'edb'" % sorted(_path_constants(dele)))
+
+
+def _check_create_refuses_existing(repo, r9):
+    """handle_create_config resets config, flags (and thereby the key) of the sid it computes.  The sid is
+    a digest of the salted config, and a config that already carries a salt keeps it - so the same sid can
+    come back.  The only thing that refuses this is create_sid_folder raising on an existing directory."""
+    csf = repo.func(F.CLI_FM, "create_sid_folder")
+    mk = [c for c in ast.walk(csf.node) if isinstance(c, ast.Call) and isinstance(c.func, ast.Attribute) and c.func.attr in ("mkdir", "makedirs")]
+    hc = repo.func(F.CLI, "Service.handle_create_config")
+    # an explicit refusal in the handler also counts: a test on directory existence whose true branch raises
+    explicit = False
+    for st in ast.walk(hc.node):
+        if isinstance(st, ast.If) and any(isinstance(c, ast.Call) and ((dotted(c.func) or "").endswith(("check_sid_local_file_valid", "exists")))
+                                           for c in ast.walk(st.test)) and any(isinstance(x, ast.Raise) for b in st.body for x in ast.walk(b)):
+            explicit = True
+    for st in ast.walk(csf.node):
+        if isinstance(st, ast.If) and any(isinstance(c, ast.Call) and isinstance(c.func, ast.Attribute) and c.func.attr == "exists" for c in ast.walk(st.test)) \
+                and any(isinstance(x, ast.Raise) for b in st.body for x in ast.walk(b)):
+            explicit = True
+    tolerant = [c for c in mk if any(k.arg == "exist_ok" and not (isinstance(k.value, ast.Constant) and k.value.value is False) for k in c.keywords)]
+    skipping = any(isinstance(st, ast.If) and any(isinstance(c, ast.Call) and isinstance(c.func, ast.Attribute) and c.func.attr == "exists" for c in ast.walk(st.test))
+                   and not any(isinstance(x, ast.Raise) for b in st.body for x in ast.walk(b)) for st in ast.walk(csf.node))
+    r9.require(bool(mk), csf, "client create_sid_folder mkdir", "client create_sid_folder no longer creates the directory")
+    r9.require(explicit or (not tolerant and not skipping), csf, "create over existing service",
+               "client create_sid_folder tolerates an existing directory and handle_create_config has no explicit refusal: creating a "
+               "service from a configuration that already carries a salt (e.g. the stored config of an existing service) silently "
+               "resets that service's flags, after which its key is regenerated and the uploaded index becomes unsearchable")
+    # the sid is derived from the config content, after salting
+    calls = [c for c in ast.walk(hc.node) if isinstance(c, ast.Call) and dotted(c.func) in ("_calculate_sid_by_config_content", "_add_salt_to_config")]
+    names = [dotted(c.func) for c in sorted(calls, key=lambda c: (c.lineno, c.col_offset))]
+    r9.require(names == ["_add_salt_to_config", "_calculate_sid_by_config_content"], hc, "salt then sid",
+               "handle_create_config no longer salts the configuration before deriving the sid from it (found %s)" % names)
 
 
 def _writes(call):
